@@ -79,7 +79,7 @@ def elf_table(elf):
             continue
         if y.shndx == 0:
             if not y.name.startswith("_GLOBAL_OFFSET") and y.name not in ("__tls_get_addr",):
-                und.add(y.name)
+                und.add(y.name if y.type != "TLS" else "thread " + y.name)
             continue
         if y.type not in ("OBJECT", "FUNC", "TLS", "NOTYPE"):
             continue
@@ -125,15 +125,16 @@ def il_table(mod, il):
             for ins in b.insts:
                 for v in ins.args + [v for _, v in (ins.cargs or [])]:
                     if v.kind == "glo":
-                        refs.add(v.v)
+                        refs.add((v.v, bool(v.thread)))
             for p_ in b.phis:
-                refs.update(v.v for _, v in p_.args if v.kind == "glo")
+                refs.update((v.v, bool(v.thread)) for _, v in p_.args if v.kind == "glo")
             j = b.jump
             if j and j[0] in ("jnz", "ret") and j[1] is not None and j[1].kind == "glo":
-                refs.add(j[1].v)
+                refs.add((j[1].v, bool(j[1].thread)))
     for d in mod.data:
-        refs.update(it.sym for it in d.items if it.kind == "sym")
-    und = {r for r in refs if r not in defined}
+        refs.update((it.sym, bool(it.thread)) for it in d.items if it.kind == "sym")
+    # an undefined reference to a thread-local object is written "thread name" (the ELF side: undefined symbol of type TLS)
+    und = {("thread " + r if th else r) for r, th in refs if r not in defined}
     return named, sorted(local), und
 
 
@@ -210,7 +211,7 @@ def hist_enum(ctx):
                 k += 1
                 if ctx.tier == "thorough" or n <= 2 or (k * 2654435761 + ctx.seed * 97) % 7 == 0:
                     yield {"kind": kind, "hist": [list(h) for h in hist]}
-                    if n >= 2 and hist[0][1] == "file" and (kind == "obj" or hist[0][2] == "decl") and any(h[1] == "block" for h in hist[1:]):
+                    if hist[0][1] == "file" and (kind == "obj" or hist[0][2] == "decl") and (n <= 2 or any(h[1] == "block" for h in hist[1:])):
                         yield {"kind": kind, "hist": [list(h) for h in hist], "label": True}
         if ctx.tier == "thorough":
             for hist in itertools.product(opts, repeat=4):
@@ -244,7 +245,7 @@ def units(draw):
     nhost = [0]
     for i in range(n):
         nm = "id%d" % i
-        k = draw(st.sampled_from(["obj", "obj", "fn", "array", "asm", "tls", "blockstatic", "blockextern"]))
+        k = draw(st.sampled_from(["obj", "obj", "fn", "array", "asm", "tls", "blockstatic", "blockextern", "latetag"]))
         if k == "obj":
             hist = draw(st.lists(st.sampled_from(["int %s;", "extern int %s;", "int %s = %d;", "static int %s;", "static int %s = %d;"]), min_size=1, max_size=3))
             for h in hist:
@@ -292,8 +293,19 @@ def units(draw):
                 else:
                     lines.append("int host%d(int c) { if (c) { %s return %s; } return 0; }" % (nhost[0], redecl, use_))
             uses.append(nm + ("()" if isfn else ""))
+        elif k == "latetag":
+            # tentative definition while the struct/union type is still incomplete, completed later (C11 6.9.2p2), optionally
+            # declared again after the completion
+            su = draw(st.sampled_from(["struct", "union"]))
+            body = draw(st.sampled_from(["long a; char b;", "char c[3];", "double d; int i;", "short s;", "int i; char c[5];"]))
+            lines.append("%s%s lt%d %s;" % (draw(st.sampled_from(["", "", "static "])), su, i, nm))
+            lines.append("%s lt%d { %s };" % (su, i, body))
+            if draw(st.integers(0, 2)) == 0:
+                lines.append("%s lt%d %s;" % (su, i, nm))
+            lines.append("void *keep%d(void) { return &%s; }" % (i, nm))
         elif k == "tls":
-            lines.append("%s_Thread_local int %s%s;" % (draw(st.sampled_from(["", "static ", "extern "])), nm, draw(st.sampled_from(["", " = 5"]))))
+            lab = draw(st.sampled_from(["", "", " __asm__(\"tl_lab%d\")" % i]))
+            lines.append("%s_Thread_local int %s%s%s;" % (draw(st.sampled_from(["", "static ", "extern "])), nm, lab, draw(st.sampled_from(["", " = 5"]))))
             uses.append(nm)
         elif k == "blockstatic":
             for _ in range(draw(st.integers(1, 3))):
